@@ -750,12 +750,6 @@ theorem enqueue_after_shutdown (s : QState) (c : Conn) (r : Option Ref) (hd : s.
 
 /-! ## The newest snapshot -/
 
-/-- Ghost: the snapshot of the latest request accepted for `c` (none if none). -/
-def lastPush (s : QState) (h : Heap) (c : Conn) (prev : Option Nat) (op : Op) : Option Nat :=
-  match op with
-  | .enq c' r => if s.down || c' ≠ c || r.isNone then prev else pushOf h r
-  | _ => prev
-
 /-- `Enqueue` makes the waiting request of `c` carry the snapshot of the request just accepted
     (so, over a history, always the snapshot of the *latest* accepted request: snapshots only move
     forward provided producers hand them over in order). -/
